@@ -25,7 +25,7 @@ ASSUMPTIONS = [
 
 
 def shards(tier, seed):
-    n = 1 if tier == 'quick' else 16
+    n = 8 if tier == 'quick' else 16
     return [dict(i=i, n=n) for i in range(n)]
 
 
@@ -209,9 +209,9 @@ def error_case(sink, seed, idx):
 
 
 def run_shard(sink, tier, seed, shard):
-    n_trees = harness.scale(1800, 160000, tier)
-    n_red = harness.scale(1500, 100000, tier)
-    n_err = harness.scale(360, 9000, tier)
+    n_trees = harness.scale(12000, 160000, tier)
+    n_red = harness.scale(8000, 100000, tier)
+    n_err = harness.scale(1440, 9000, tier)
     k = 5 if tier == 'quick' else 8
     opts = gen.all_opts()
     i0, step = (shard or {}).get('i', 0), (shard or {}).get('n', 1)
